@@ -281,6 +281,9 @@ pub fn snapshot(sys: &Sys, b: &Bounds, history: &[Step]) -> Snap {
     let accept = verif::accept_view();
     let registered = w.listener_registered();
     let epoll_ready = w.epoll_ready();
+    if verif::accept_present() && !w.probes_agree() {
+        w.rec(Rec::Machinery("poll(2) on the epoll fd and the peeked token list disagree".into()));
+    }
     let timer_expired = w.accept_timer_expired();
     let now = tokio::time::Instant::now();
     let workers: Vec<WorkerSnap> = (0..verif::worker_slots())
